@@ -59,6 +59,10 @@ pub fn encrypt_in_place_xnonce(buffer: &mut [u8], xnonce: &[u8; 24], key: &[u8; 
 /// `getrandom` documentation for details.
 pub fn generate_random_bytes<const N: usize>() -> [u8; N] {
     let mut bytes = [0; N];
+    #[cfg(feature = "verif")]
+    if verif_rng::fill(&mut bytes) {
+        return bytes;
+    }
     OsRng.fill_bytes(&mut bytes);
     bytes
 }
@@ -80,5 +84,32 @@ mod tests {
         encrypt_in_place(&mut data, sequence, key, aad).unwrap();
         dencrypted_in_place(&mut data, sequence, key, aad).unwrap();
         assert_eq!(&data[..data_len], b"some packet data");
+    }
+}
+
+/// Verification hook (feature `verif`): a thread-local byte source that, while installed, replaces the
+/// operating system RNG so that keys, nonces and therefore ciphertexts are reproducible.
+#[cfg(feature = "verif")]
+pub mod verif_rng {
+    use std::cell::RefCell;
+
+    type Source = Box<dyn FnMut(&mut [u8])>;
+
+    thread_local! {
+        static SOURCE: RefCell<Option<Source>> = const { RefCell::new(None) };
+    }
+
+    pub fn install(source: Option<Source>) {
+        SOURCE.with(|s| *s.borrow_mut() = source);
+    }
+
+    pub(crate) fn fill(buffer: &mut [u8]) -> bool {
+        SOURCE.with(|s| match s.borrow_mut().as_mut() {
+            Some(f) => {
+                f(buffer);
+                true
+            }
+            None => false,
+        })
     }
 }
